@@ -120,8 +120,8 @@ SPECS = {
             ("solid_LCS_i", "LCS_i", 3, "solid_masks", "supercooling mask of the solidification loop: T_k < T_eq_l", dict(kind="mask")),
             ("solid_LCS_i_r", "LCS_i_r", 3, "solid_masks", "its complement ~LCS_i (with the definition of LCS_i)",
              dict(kind="mask", inline=["LCS_i"])),
-            ("BETA", "BETA", 1, "BETA", "apparent-capacitance factor np.ones(Nz)*LCS_i_r + (1 + beta/(T_k - T_m)**2)*LCS_i, masks multiplied in"),
-            ("m_ice", "m_ice", 1, "m_ice", "ice mass np.zeros(Nz)*LCS_i_r + (mass_water - mass_solute (k_f/M_s)/(T_m - T_k))*LCS_i"),
+            ("BETA", "BETA", 1, "solid_field", "apparent-capacitance factor np.ones(Nz)*LCS_i_r + (1 + beta/(T_k - T_m)**2)*LCS_i, masks multiplied in: the field of solidStep1D is computed with the generated BETA at the generated masks of the OLD field (per-node lemma: BETA)"),
+            ("m_ice", "m_ice", 1, "w_i_k", "ice mass np.zeros(Nz)*LCS_i_r + (mass_water - mass_solute (k_f/M_s)/(T_m - T_k))*LCS_i: the w of solidStep1D is the generated m_ice / mass (per-node lemma: m_ice). The MASK ARGUMENTS of m_ice - built in the source on the NEW temperature with np.where(T_k < T_eq_l, 1, 0) / np.where(LCS_i, 0, 1) - are NOT extracted (np.where is rejected): the theorem instantiates them with the hand model's maskNum(decide (t < T_eq_l)) and its negation; that part stays tied by the C08/C13 correspondence only"),
         ]),
     "2D": dict(
         file="Formulas2D.lean", source="snowing.py", func="Snowing._run_2D", namespace="Snow.Gen.F2D",
@@ -187,7 +187,7 @@ SPECS = {
             ("solid_LCS_i_r", "LCS_i_r", 3, "solid_masks", "its complement ~LCS_i (with the definition of LCS_i)",
              dict(kind="mask", inline=["LCS_i"])),
             ("BETA", "BETA", 1, "BETA", "apparent-capacitance factor np.ones((Nz, Nr))*LCS_i_r + (1 + beta/(T_k - T_m)**2)*LCS_i, masks multiplied in"),
-            ("m_ice", "m_ice", 1, "m_ice", "ice mass np.zeros((Nz, Nr))*LCS_i_r + (mass_water - mass_solute (k_f/M_s)/(T_m - T_new))*LCS_i"),
+            ("m_ice", "m_ice", 1, "w_i_new", "ice mass np.zeros((Nz, Nr))*LCS_i_r + (mass_water - mass_solute (k_f/M_s)/(T_m - T_new))*LCS_i at the generated masks of the NEW field (solid_masks): S2D.iceFrac is the generated m_ice / (mass_water + mass_solute) (per-node lemma: m_ice)"),
             ("sigma_new", "sigma_new", 1, "sigma_new", "closed part of sigma_new: normalisation of the volume integral"),
         ]),
     "OpCond": dict(
